@@ -25,6 +25,12 @@ impl Tape {
     pub fn raw(&self) -> &[u8] {
         &self.data
     }
+    pub fn pos(&self) -> usize {
+        self.pos
+    }
+    pub fn set_pos(&mut self, p: usize) {
+        self.pos = p;
+    }
     pub fn u8(&mut self) -> u8 {
         let v = self.data.get(self.pos).copied().unwrap_or(0);
         self.pos += 1;
